@@ -9,6 +9,7 @@ _Z80_FILES = ['rustzx-z80/src/cpu.rs', 'rustzx-z80/src/registers.rs', 'rustzx-z8
 
 META = {'title': 'Every Z80 instruction yields the architected register/flag/memory/IO result',
  'lean_modules': ['ZxVerif.Props.C01'],
+ 'extract': ['Z80Tables'],
  'modelled_code': _Z80_FILES,
  'assumptions': ['the ground truth "NMOS Zilog Z80" is the Lean reference semantics ZxVerif/Model/Z80 (Variant.hw): a '
                  'transcription of the published documentation with arithmetic flag definitions; where rustzx (which '
@@ -22,7 +23,7 @@ META = {'title': 'Every Z80 instruction yields the architected register/flag/mem
                  'reads from a script; the provided Z80Bus methods (read/write/wait_loop/read_word/write_word) are '
                  "the crate's own",
                  'the flag lookup tables in lean/ZxVerif/Extracted/Z80Tables.lean are a committed copy refreshed by '
-                 'tools/extract_z80_tables.py; the behavioural correspondence covers the tables on every run'],
+                 'tools/extract.py (Z80Tables, re-read on every run of ./check C01); the behavioural correspondence covers the tables on every run'],
  'design_ref': 'DESIGN.md section 8, Shared Z80 model and C01',
  'technique': 'Lean 4: executable NMOS Z80 reference semantics over an abstract bus; table-vs-arithmetic flag '
               'theorems by bv_decide over whole operand spaces; structural decode/prefix/Q-latch laws for all states '
